@@ -92,6 +92,16 @@ def as_format(dense, fmt):
     matrix with duplicate entries denotes their sums."""
     import scipy.sparse as sps
 
+    if fmt == "coo_zeros":
+        # fixed (dense) sparsity pattern: vanishing entries are stored as explicit zeros
+        r, c = np.nonzero(np.ones_like(dense))
+        return sps.coo_matrix((dense[r, c], (r, c)), shape=dense.shape)
+    if fmt == "coo_cancel0":
+        # non-zero entries stored once; at every vanishing position a pair 3 and -3 that cancels exactly
+        r, c = np.nonzero(dense)
+        r0, c0 = np.nonzero(dense == 0)
+        w = np.full(len(r0), 3.0)
+        return sps.coo_matrix((np.concatenate([dense[r, c], w, -w]), (np.concatenate([r, r0, r0]), np.concatenate([c, c0, c0]))), shape=dense.shape)
     if fmt in ("coo_dup", "coo_cancel"):
         r, c = np.nonzero(dense)
         v = dense[r, c]
@@ -178,7 +188,7 @@ def run_case(case):
         stats = {"inputs": 0}
         for gi, grad in enumerate([np.array(fill(2 ** n - 1, n, case["rot"] + 3, stride=7)),
                                    np.array(fill(2 ** n - 2, n, case["rot"] + 20, stride=3))]):
-            for fmt in ("coo", "csr", "csc", "coo_dup", "coo_cancel"):
+            for fmt in ("coo", "csr", "csc", "coo_dup", "coo_cancel", "coo_zeros", "coo_cancel0"):
                 sm = as_format(J, fmt)
                 at = {"grad": grad.tolist(), "J": J.tolist(), "fmt": fmt}
                 stats["inputs"] += 1
@@ -201,7 +211,7 @@ def run_case(case):
                 k += 1
         J = np.array(fill(case["jp"], m * n, case["rot"])).reshape((m, n))
         stats = {"inputs": 0, "returned": 0}
-        for fmt in ("coo", "csr", "coo_dup", "coo_cancel"):
+        for fmt in ("coo", "csr", "coo_dup", "coo_cancel", "coo_zeros", "coo_cancel0"):
             at = {"H": Hm.tolist(), "J": J.tolist(), "fmt": fmt}
             stats["inputs"] += 1
             try:
